@@ -32,6 +32,11 @@ def gen_case(rng, cfg, idx):
     b = B.Builder(rng)
     shape = B.rand_shape(rng, 2, 3, 1) or (2,)
     leaves = [b.leaf(shape, lo=0.4, hi=1.6, constant=True if (i and rng.random() < 0.25) else None) for i in range(rng.randint(1, 3))]
+    for st in b.prog:
+        if st["k"] == "leaf" and rng.random() < 0.25:
+            # a tensor made WITHOUT a copy from a slice of a larger user-owned buffer: its array is a view, the buffer its base
+            st["layout"], st["nocopy"] = rng.choice(["strided", "neg"]), True
+            b.it.env[st["out"]] = b.it.make_array(st) if hasattr(b.it, "make_array") else b.it.env[st["out"]]
     shared = []
     for _ in range(rng.randint(2, 5)):
         src = rng.choice(leaves + shared)
@@ -82,6 +87,13 @@ def gen_case(rng, cfg, idx):
         ev = [("backward", rng.choice(others)), ("reuse", rng.choice(shared))]
         if rng.random() < 0.5:
             ev.insert(1, ("inplace", rng.choice(shared)))
+    elif rng.random() < 0.07:
+        # a call on a shared tensor fails, a sibling graph is back-propagated, then the user tries to overwrite the tensor's memory: the final
+        # graph still reads it, so the guard must still hold (lock counts are per graph; a failed call must give back exactly what it took)
+        t_ = rng.choice(shared + leaves)
+        ev = [("failcall", t_), ("backward", rng.choice(others)), ("rawwrite", t_)]
+        if rng.random() < 0.5:
+            ev.insert(0, ("failcall", rng.choice(shared + leaves)))
     else:
         ev = []
         for _ in range(nev):
@@ -96,6 +108,8 @@ def gen_case(rng, cfg, idx):
                 ev.append(("reuse", rng.choice(shared + leaves)))
             elif c < 0.9:
                 ev.append(("failcall", rng.choice(shared + leaves)))
+            elif c < 0.95:
+                ev.append(("rawwrite", rng.choice(shared + leaves)))
             else:
                 ev.append(("view", rng.choice(shared + leaves)))
     rec = len(b.prog)   # everything up to here defines L's recorded forward computation
@@ -126,6 +140,9 @@ def gen_case(rng, cfg, idx):
             else:
                 bad = enc_arr(np.ones(tuple(d + 2 for d in np.shape(b.val(t))) + (3,)))
                 b.prog.append({"k": "call", "out": "__f", "fn": "add", "a": [B.R(t), bad], "sp": "mg", "expect_raise": True})
+        elif kind == "rawwrite":
+            # the user tries to write into the tensor's array directly: refused (read-only) as long as a live graph reads that memory
+            b.prog.append({"k": "rawwrite", "tgt": t, "via": rng.choice(["self", "root"])})
         elif kind == "view":
             GI.s_view(b, t)
     b.prog.append({"k": "backward", "tgt": final, "seed": None})
@@ -200,6 +217,20 @@ def graph_cyclic(L, through_constants=True):
 
 
 def run_case(case):
+    res = _run_case(case)
+    if res.get("viol") and res.get("counters", {}).get("rawwrites_let_through") and not case.get("_norw"):
+        # counterfactual for classification: the same history without the raw writes.  If it is clean, a write that the memory guard let
+        # through is what changed the gradients - never one of the recorded mechanisms
+        prog2 = [st for st in case["prog"] if st["k"] != "rawwrite"]
+        res2 = _run_case(dict(case, prog=prog2, _norw=True))
+        if not any((v.get("mech") or "").startswith("silent-wrong-gradient") for v in res2.get("viol", [])):
+            for v in res["viol"]:
+                if (v.get("mech") or "").startswith("silent-wrong-gradient"):
+                    v["rawwrite_caused"] = True
+    return res
+
+
+def _run_case(case):
     prog, L, rec = case["prog"], case["L"], case["rec"]
     cnt, viol, sets = {"final_calls": 0}, [], {}
     # reference: history truncated after L's recording, then L.backward() at once
@@ -226,7 +257,9 @@ def run_case(case):
         if st["k"] in ("setitem", "aug", "uout", "setshape") and i not in it.raised:
             o = sh.owner.get(st["tgt"])
             mutated |= {n for n, oo in sh.owner.items() if oo == o}
-    events = [st["k"] + ("!" if i in it.raised else "") for i, st in enumerate(prog[rec:-1], start=rec)]
+    events = [st["k"] + ("!" if i in it.raised else "") + ("+" if i in getattr(it, "rawwrites_ok", ()) else "") for i, st in enumerate(prog[rec:-1], start=rec)]
+    cnt["rawwrite_attempts"] = sum(1 for st in prog[rec:-1] if st["k"] == "rawwrite")
+    cnt["rawwrites_let_through"] = len(getattr(it, "rawwrites_ok", ()))
     # was any tensor of L's recorded graph SUCCESSFULLY used again (new operation or in-place update) after the first clear / backward?
     reused_ok = False
     fc_ = next((i for i in range(rec, len(prog) - 1) if prog[i]["k"] in ("backward", "clear")), None)
@@ -317,6 +350,8 @@ def run_case(case):
 
 def classify(v, case):
     m = v.get("mech") or v["monitor"]
+    if v.get("rawwrite_caused"):
+        return "silent-wrong-gradient:raw-write-let-through"
     if m.startswith("silent-wrong-gradient") and v.get("defeated"):
         return "reuse-refills-consumers"
     if m.startswith("silent-wrong-gradient") and v.get("const_mutated_after_clear"):
